@@ -591,6 +591,24 @@ func (u *userSolutionCons) EstimateIsViolated(nextroute.Move) (bool, nextroute.S
 	return false, nextroute.NoPositionsHint()
 }
 func (u *userSolutionCons) String() string { return fmt.Sprintf("user_solution_%d", u.id) }
+
+// userSolutionDataCons: the same rules, but the exact check reads the data that the constraint itself maintains through
+// ConstraintSolutionDataUpdater (the verdict computed when the data was last refreshed) instead of walking the routes.
+type userSolutionDataCons struct{ userSolutionCons }
+
+type userSolData struct{ violated bool }
+
+func (d *userSolData) Copy() nextroute.Copier { c := *d; return &c }
+
+func (u *userSolutionDataCons) UpdateConstraintSolutionData(s nextroute.Solution) (nextroute.Copier, error) {
+	return &userSolData{violated: u.userSolutionCons.DoesSolutionHaveViolations(s)}, nil
+}
+func (u *userSolutionDataCons) DoesSolutionHaveViolations(s nextroute.Solution) bool {
+	if d, ok := s.ConstraintData(u).(*userSolData); ok && d != nil {
+		return d.violated
+	}
+	return false
+}
 func (u *userSolutionCons) DoesSolutionHaveViolations(s nextroute.Solution) bool {
 	mx, mn, total := 0, -1, 0
 	for _, v := range s.Vehicles() {
@@ -619,7 +637,14 @@ func registerUsers(model nextroute.Model, c *engineCtx) {
 	defer func() {
 		for i, fs := range userSolDefs {
 			k, _ := strconv.Atoi(fs[2])
-			if err := model.AddConstraint(&userSolutionCons{kind: fs[1], k: k, id: i}); err != nil {
+			base := userSolutionCons{kind: fs[1], k: k, id: i}
+			var err error
+			if len(fs) > 3 && fs[3] == "data" {
+				err = model.AddConstraint(&userSolutionDataCons{base})
+			} else {
+				err = model.AddConstraint(&base)
+			}
+			if err != nil {
 				panic(err)
 			}
 		}
